@@ -390,11 +390,13 @@ class Fourier:
     def _check_time(self):
         """Get required frequencies for given times and ft/ftarg."""
 
-        # Get freq via empymod.
-        _, freq, ft, ftarg = empymod.utils.check_time(
-                self.time, self.signal, self.ft, self.ftarg, self.verb)
+        # Get freq via empymod; the check gets a copy of the times.
+        time, freq, ft, ftarg = empymod.utils.check_time(
+                np.array(self._time, dtype=float), self.signal, self.ft,
+                self.ftarg, self.verb)
 
-        # Store required frequencies and check ft, ftarg.
+        # Store checked times, required frequencies, and check ft, ftarg.
+        self._time = time
         self._freq_req = freq
         self._ft = ft
         self._ftarg = ftarg
